@@ -37,6 +37,8 @@ UNITS = {
     # transistor-like devices whose ports are NOT listed drain, gate, source, bulk (as Sky130's five-terminal nfet_20v0_iso: g d s b sub)
     "mos5": ("ext:M5", [("g", 1), ("d", 1), ("s", 1), ("b", 1), ("sub", 1)], []),
     "mos4r": ("ext:M4R", [("s", 1), ("b", 1), ("g", 1), ("d", 1)], []),
+    # a unit that is itself what MosStack made (a two-transistor stack): n instances OF THE UNIT, not 2n transistors
+    "stack2": ("gen:STK2", [("d", 1), ("g", 1), ("s", 1), ("b", 1)], []),
 }
 
 
@@ -52,6 +54,13 @@ def unit_design(uname):
     elif k == "ext":
         leaves[ref] = [{"n": n, "w": w} for n, w in ports]
         of = {"k": "ext", "ref": ref}
+    elif k == "gen":
+        leaves["Mos"] = [{"n": n, "w": 1} for n in ("d", "g", "s", "b")]
+        sigs = [U.sig(n, w, True) for n, w in ports] + [U.sig("mid", 1)]
+        insts = [U.inst("units_0", "Mos", [("d", Sig("d")), ("g", Sig("g")), ("s", Sig("mid")), ("b", Sig("b"))], k="ext"),
+                 U.inst("units_1", "Mos", [("d", Sig("mid")), ("g", Sig("g")), ("s", Sig("s")), ("b", Sig("b"))], k="ext")]
+        mods[ref] = U.mod(sigs, insts, [], probes=False)
+        of = {"k": "mod", "ref": ref}
     else:
         sigs = [U.sig(n, w, True) for n, w in ports]
         insts = [U.inst("l0", "L1", [("a", Sig(ports[0][0]))], k="ext"), U.inst("l1", "L12", [("a", Sig(ports[1][0])), ("b", Sig("c") if uname == "mod" else Bref("bp", "y"))], k="ext")]
@@ -83,6 +92,22 @@ def run_case(args):
             uports = unit.ports
         elif k == "ext":
             unit = bld.leaf(ref)
+            uports = unit.ports
+            if kind in ("series", "mosstack") and tid % 2:
+                # history: ANOTHER external module with this one's name and domain (one more port), called with the same parameters, went through
+                # the same generator with the same arguments earlier in this process - it is not this unit
+                try:
+                    twin = h.ExternalModule(name=unit.module.name, port_list=[h.Port(name=n, width=w) for n, w in ports] + [h.Port(name="zz")],
+                                            desc="twin", domain=unit.module.domain, paramtype=unit.module.paramtype)(unit.params)
+                    if kind == "mosstack":
+                        h.generators.MosStack(unit=twin, nser=case["n"])
+                    else:
+                        tc = (case["a"], case["b"]) if case["by"] == "name" else (twin.ports[case["a"]], twin.ports[case["b"]])
+                        h.generators.Series(unit=twin, conns=tc, nser=case["n"])
+                except Exception:
+                    pass
+        elif k == "gen":
+            unit = h.generators.MosStack(unit=h.primitives.Mos(), nser=2)
             uports = unit.ports
         else:
             unit = bld.module(ref)
@@ -137,7 +162,7 @@ def run(tier, seed, replay_file=None):
                             continue
                         cases.append({"kind": "series", "unit": uname, "a": a, "b": b, "n": n, "by": by})
         for n in range(1, N + 1):
-            for u in ("mos", "mos5", "mos4r"):
+            for u in ("mos", "mos5", "mos4r", "stack2"):
                 cases.append({"kind": "mosstack", "unit": u, "a": "d", "b": "s", "n": n})
     evs = pool_map(run_case, list(enumerate(cases)), chunksize=8)
     files = tlc.split_batches([[e] for e in evs], WORK / "c19", f"tr-{tier}", NPROC)
